@@ -100,10 +100,11 @@ def shard(ctx, tier, budget_s):
         for ci, (s, d, lg, lv) in enumerate(mine):
             if time.time() >= deadline:
                 break
-            cfg = gen.rnd_config(rng, selfips=s, deny=d, logger=lg, level=lv)
+            cfg = gen.rnd_config(rng, selfips=s, deny=d, logger=lg, level=lv, single_family=True)
             cid = "%d%d%s%d" % (s, d, lg, lv)
             ctx.case(cfg)
-            e4 = gen.endp(rng, cfg, False)
+            # canary endpoint of a family the configuration handles
+            e4 = gen.endp(rng, cfg, bool(cfg.selfips) and not any(len(a) == 4 for a in cfg.selfips))
             # --- seeds -----------------------------------------------------------------------------
             apps = gen.app_requests(rng)
             hp = gen.hostile_payloads(rng)
@@ -218,7 +219,7 @@ def run(tier, seed):
     sites = sorted(set(x["key"] for x in v.violations))
     v.extra["distinct_panic_sites"] = len([s for s in sites if s.startswith("panic:")])
     v.extra["configs_covered"] = len(v.extra.get("configs_run", {}))
-    return v.finish(RULE, floor=20000 if tier == "quick" else 200000, assumptions=ASSUME)
+    return v.finish(RULE, floor=2000 if tier == "quick" else 20000, assumptions=ASSUME)
 
 
 def _shard_entry(ctx, budget_s):
